@@ -119,7 +119,7 @@ def run(chk, replay=None):
         cur = os.path.join(d, "cur.json")
         # ---- model -> code: enumerated case table
         cases = os.path.join(d, "cases.ndjson")
-        kinds = '{"msg", "big", "rootdot", "name", "badname", "arena"}'
+        kinds = '{"msg", "big", "rootdot", "typeclass", "name", "badname", "arena"}'
         r = vlib.run_tlc("C09Cases", vlib.cfg("C09_cases_%s.cfg" % tier, SEED=seed, KINDS=kinds), emit_to=cases, timeout=1800, heap="6g")
         chk.add_tlc("cases", r)
         if r.generated != r.distinct:
